@@ -28,7 +28,8 @@ CTXS = [[], [], [], [], [], [], [], [], ["numpy.einsum"], ["numpy.numpylike"], [
 # pool of descriptors (a pure function of the master seed and the pool size)
 # ------------------------------------------------------------------------------------------------
 ALIAS_KINDS = ["space", "kworder", "kw-float", "kw-npint", "kw-npfloat", "kw-bool", "kw-0d-int", "kw-0d-float", "kw-seq-tuple", "kw-seq-array", "kw-seq-array-float", "kw-singleton-list", "kw-seq-nested", "neighbour", "tensor-factory", "tensor-factory-varkw", "tensor-factory-name", "tensor-factory-wraps-plain", "tensor-factory-wraps-name", "tensor-factory-wraps-varkw",
-               "tensor-dtype", "tensor-scalar", "graph-toggle", "backend-name"]
+               "tensor-dtype", "tensor-scalar", "graph-toggle", "backend-name", "other-op"]
+PRES_PLAIN = ["flip", "sort", "argsort", "softmax", "log_softmax"]
 
 
 def applicable_alias_kinds(d):
@@ -37,6 +38,8 @@ def applicable_alias_kinds(d):
         out.append("graph-toggle")
         if not d.get("backend") and not d["op"].startswith("adapt:"):
             out.append("backend-name")
+    if d["op"] in workload.REDUCE + workload.ELEM + PRES_PLAIN + ["dot", "id"]:
+        out.append("other-op")  # the same description text (and arguments) given to an operation with other conventions for brackets / outputs
     num_kw = {k: v for k, v in d["kw"].items() if isinstance(v, int | float) and not isinstance(v, bool)}
     int_kw = {k: v for k, v in num_kw.items() if isinstance(v, int)}
     if len(d["kw"]) > 1:
@@ -59,7 +62,7 @@ def applicable_alias_kinds(d):
     return out
 
 
-def make_alias(r, d, kind):
+def make_alias(r, d, kind, force_class=None):
     """An equal-but-not-identical (or, for 'neighbour', a confusable) variant of descriptor d (F-alias)."""
     d = json.loads(json.dumps(d))
     int_kw = sorted(k for k, v in d["kw"].items() if isinstance(v, int) and not isinstance(v, bool))
@@ -69,6 +72,13 @@ def make_alias(r, d, kind):
         d["graph"] = not d.get("graph")  # the cache entry holds (function, code): the other half must be served as faithfully
     elif kind == "backend-name":
         d["backend"] = r.choice(["numpy", "numpy", "numpy.numpylike"])
+    elif kind == "other-op":
+        n = len(d["tensors"])
+        classes = [workload.REDUCE, PRES_PLAIN, ["id"]] if n == 1 else [[o for o in workload.ELEM if o != "where"], ["dot"], ["id"]]
+        classes = [c for c in classes if d["op"] not in c]
+        if force_class is not None:
+            classes = [force_class]
+        d["op"] = r.choice(r.choice(classes))
     elif kind == "kworder":
         items = list(d["kw"].items())
         r.shuffle(items)
@@ -131,7 +141,7 @@ def gen_pool(master, size):
     while len(pool) < size:
         fam = r.random()
         if fam < 0.12:
-            name = r.choice(["red_sum_scale", "red_max", "el_axpy", "el_mul"])
+            name = r.choice(workload.ADAPTERS)
             if name.startswith("red"):
                 d = workload.gen_call(r, "reduce")
                 d["op"] = "adapt:" + name
@@ -189,6 +199,11 @@ def gen_pool(master, size):
             other = r.choice([k for k in kinds if k.startswith("tensor-factory") and k != fac[0]])
             pool.append({"d": make_alias(r, d, other), "ctx": ctx, "alias_of": base, "alias_kind": other})
             alias_count[other] = alias_count.get(other, 0) + 1
+        if d["op"] in workload.REDUCE + ["dot"] and "[" not in d["desc"] and len(d["tensors"]) == 1 and len(pool) < size and r.random() < 0.6:
+            # descriptions are parsed per text, operations then add their own implicit brackets: the same text given to a reduction
+            # (brackets implied) and to an order-preserving operation (brackets required) must not influence each other
+            pool.append({"d": make_alias(r, d, "other-op", force_class=PRES_PLAIN), "ctx": ctx, "alias_of": base, "alias_kind": "other-op"})
+            alias_count["other-op"] = alias_count.get("other-op", 0) + 1
         if d["op"].startswith(("solve", "matches")) and "kw-singleton-list" in kinds and len(pool) < size and r.random() < 0.6:
             # the solve helpers take the same size keywords as the operations but have no compile cache of their own: keep the
             # "3 vs [3]" pair (same bytes, different meaning) frequent for them
